@@ -18,6 +18,12 @@ const ACCEPT_CRATE_POST_POST_LAYOUT: bool = true;
 /// compared with the tracker after every op.
 const CHECK_VALUES: bool = true;
 
+/// Generated round-trip cases in which `dvi::serialize` did not write the minimal-width encoding.
+/// The statement does not demand minimal widths and the crate documents them only by example
+/// (those examples are asserted in `model_goldens`), so this is surfaced in the evidence
+/// (`roundtrip.non_minimal_width_encodings`), not failed.
+static NON_MINIMAL: std::sync::atomic::AtomicU64 = std::sync::atomic::AtomicU64::new(0);
+
 // ---------------------------------------------------------------------------------
 // Conversions between the mirror type and the API type
 
@@ -297,7 +303,8 @@ fn impl_decode(bytes: &[u8]) -> Result<(Vec<dvi::Op>, Result<(), dvi::InvalidDvi
                 if tail.len() >= rest.len() {
                     return Err(format!("Op::deserialize made no progress at offset {} (would loop forever)", bytes.len() - rest.len()));
                 }
-                if tail.as_ptr() != rest[rest.len() - tail.len()..].as_ptr() {
+                // (an exhausted input may legitimately be reported by any empty slice)
+                if !tail.is_empty() && tail.as_ptr() != rest[rest.len() - tail.len()..].as_ptr() {
                     return Err("Op::deserialize returned a tail that is not the suffix of its input".into());
                 }
                 rest = tail;
@@ -327,6 +334,12 @@ fn first_diff<T: PartialEq + std::fmt::Debug>(a: &[T], b: &[T]) -> String {
         }
     }
     "no difference".into()
+}
+
+/// Exactly 255 bytes and the last character occupies more than one byte (the length byte is at its
+/// maximum and byte 254 is a continuation byte).
+fn ends_multibyte_at_255(s: &str) -> bool {
+    s.len() == 255 && !s.is_char_boundary(254)
 }
 
 fn width_classes(ops: &[DOp], case: &mut Case) -> bool {
@@ -360,12 +373,15 @@ fn width_classes(ops: &[DOp], case: &mut Case) -> bool {
                 u[m::unsigned_width(*k) as usize] = true;
                 multi = true;
                 if area.len() == 255 || name.len() == 255 { cls.insert("str_len_255"); }
+                if ends_multibyte_at_255(area) || ends_multibyte_at_255(name) { cls.insert("str_len_255_last_char_multibyte"); }
+                if area.len() == 255 && name.len() == 255 { cls.insert("str_area_and_name_len_255"); }
                 if area.is_empty() || name.is_empty() { cls.insert("str_len_0"); }
                 if !area.is_ascii() || !name.is_ascii() { cls.insert("str_non_ascii"); }
             }
             DOp::Pre { comment, .. } => {
                 multi = true;
                 if comment.len() == 255 { cls.insert("str_len_255"); }
+                if ends_multibyte_at_255(comment) { cls.insert("str_len_255_last_char_multibyte"); }
                 if comment.is_empty() { cls.insert("str_len_0"); }
                 if !comment.is_ascii() { cls.insert("str_non_ascii"); }
             }
@@ -445,8 +461,12 @@ fn roundtrip_oracle(ctx: &Ctx, ops: &Vec<DOp>, case: &mut Case) -> Verdict {
     let want: Vec<DOp> = expected_d.iter().map(|o| o.canon()).collect();
     let (ref_ops, ref_end) = m::decode(&bytes, Dev::default());
     if ref_end == End::Done && ref_ops == want {
-        case.class_if(bytes == m::encode(ops, Dev::default()), "bytes_equal_minimal_width_reference");
-        case.class_if(bytes != m::encode(ops, Dev::default()), "bytes_differ_from_minimal_width_reference");
+        let minimal = bytes == m::encode(ops, Dev::default());
+        case.class_if(minimal, "bytes_equal_minimal_width_reference");
+        case.class_if(!minimal, "bytes_differ_from_minimal_width_reference");
+        if !minimal && !case.replay {
+            NON_MINIMAL.fetch_add(1, std::sync::atomic::Ordering::Relaxed);
+        }
         return Verdict::pass(nontrivial);
     }
     let dev = Dev { post_post_id_before_pointer: true };
@@ -566,6 +586,13 @@ fn sweep_cases(w: i64, big_blobs: bool) -> Vec<DOp> {
             }
         }
     }
+    // exactly 255 bytes, last character of 2, 3 and 4 bytes (after a run of the same, and after ASCII)
+    for s in [format!("x{}", "é".repeat(127)), "€".repeat(85), format!("xxx{}", "𝄞".repeat(63)), format!("{}é", "a".repeat(253)), format!("{}€", "a".repeat(252)), format!("{}𝄞", "a".repeat(251)), format!("{}{}", "a".repeat(252), '\u{fffd}')] {
+        out.push(DOp::Pre { i: 2, num: 1, den: 2, mag: 3, comment: s.clone() });
+        out.push(fd(0, 0, 0, 0, &s, ""));
+        out.push(fd(0, 0, 0, 0, "", &s));
+        out.push(fd(0, 0, 0, 0, &s, &s));
+    }
     for len in (0..=300u32).chain([65534, 65535, 65536, 65537]) {
         out.push(DOp::Xxx(Blob::Rep { len, seed: (len % 250) as u8 }));
     }
@@ -578,6 +605,234 @@ fn sweep_cases(w: i64, big_blobs: bool) -> Vec<DOp> {
         out.push(op);
     }
     out
+}
+
+// ---------------------------------------------------------------------------------
+// (i') robustness of the writer on strings longer than 255 bytes
+
+/// Ops with a string of more than 255 bytes; every character width is made to straddle byte 255.
+fn overlong_cases() -> Vec<Vec<DOp>> {
+    let mut out = vec![];
+    let fd = |a: &str, n: &str| DOp::FntDef { k: 7, c: 1, s: 2, d: 3, area: a.to_string(), name: n.to_string() };
+    for fill in ['a', 'é', '€', '𝄞', '\u{fffd}'] {
+        for len in [256usize, 257, 258, 259, 300, 510, 511, 512, 513, 764, 765, 766, 1000, 65536, 65537] {
+            for offset in 0..4usize {
+                let mut s = "x".repeat(offset);
+                while s.len() + fill.len_utf8() <= len {
+                    s.push(fill);
+                }
+                while s.len() < len {
+                    s.push('y');
+                }
+                let ops = [
+                    DOp::Pre { i: 2, num: 25400000, den: 473628672, mag: 1000, comment: s.clone() },
+                    fd(&s, "n"),
+                    fd("a", &s),
+                    fd(&s, &s),
+                    fd(&"€".repeat(85), &s),
+                ];
+                for op in ops {
+                    out.push(vec![op.clone()]);
+                    // framed: what precedes and follows must come back untouched
+                    out.push(vec![DOp::Fnt(52), DOp::Right(-129), op, DOp::Char { c: 223, set: true }, DOp::SetVar(V::Z, 1 << 23), DOp::Pop]);
+                }
+            }
+        }
+    }
+    out
+}
+
+fn overlong_oracle(ops: &Vec<DOp>, case: &mut Case) -> Verdict {
+    let api: Vec<dvi::Op> = ops.iter().map(to_dvi).collect();
+    let longest = ops.iter().map(max_str_len).max().unwrap_or(0);
+    case.note = Some(format!("{} ops, longest string {} bytes", ops.len(), longest));
+    case.class_if(ops.len() > 1, "framed by other ops");
+    case.class_if(ops.iter().any(|o| matches!(o, DOp::FntDef { area, name, .. } if area.len() > 255 && name.len() > 255)), "area and name both over-long");
+    // both writer entry points write the same bytes
+    let r = panics::catch(|| {
+        let mut b = vec![];
+        for op in &api {
+            op.serialize(&mut b);
+        }
+        b
+    });
+    match (r, panics::catch(|| dvi::serialize(api.clone()))) {
+        (Ok(a), Ok(b)) if a == b => {}
+        (Ok(_), Ok(_)) => return Verdict::Fail("Op::serialize concatenation differs from dvi::serialize".into()),
+        (Err(p), _) | (_, Err(p)) => return Verdict::Fail(format!("serialize panicked at {}: {} (longest string {} bytes)", p.site(), p.message, longest)),
+    }
+    match writer_check(ops, &api) {
+        Ok(st) => {
+            record_writer_stats(&st, case);
+            Verdict::pass(st.overlong)
+        }
+        Err(e) => Verdict::Fail(e),
+    }
+}
+
+// ---------------------------------------------------------------------------------
+// (ii') directed reader forms: every command at every operand width with the limits of every
+// width, and every proper prefix of a command
+
+#[derive(Clone, Debug, Serialize, Deserialize)]
+pub struct FormCase {
+    bytes: Vec<u8>,
+    /// What must be read, spelled out by the generator (not by the model decoder).
+    want: Vec<DOp>,
+    /// `None`: every byte is consumed; `Some(o)`: `Truncated(o)` after `want`.
+    truncated: Option<u8>,
+}
+
+fn signed_form_values(w: u8) -> Vec<i32> {
+    let mut v = vec![0i64, 1, -1];
+    for k in 1..=w {
+        let bits = 8 * k as u32 - 1;
+        let (lo, hi) = (-(1i64 << bits), (1i64 << bits) - 1);
+        v.extend_from_slice(&[lo, lo + 1, lo - 1, hi, hi - 1, hi + 1]);
+    }
+    let bits = 8 * w as u32 - 1;
+    let (lo, hi) = (-(1i64 << bits), (1i64 << bits) - 1);
+    let mut v: Vec<i32> = v.into_iter().filter(|x| *x >= lo && *x <= hi).map(|x| x as i32).collect();
+    v.sort();
+    v.dedup();
+    v
+}
+
+fn unsigned_form_values(w: u8) -> Vec<u32> {
+    let hi = if w == 4 { u32::MAX as u64 } else { (1u64 << (8 * w as u32)) - 1 };
+    let mut v: Vec<u64> = vec![0, 1, 51, 52, 53, 63, 64, 127, 128];
+    for k in 1..=w {
+        let m = (1u64 << (8 * k as u32)) - 1;
+        v.extend_from_slice(&[m - 1, m, m + 1]);
+    }
+    let mut v: Vec<u32> = v.into_iter().filter(|x| *x <= hi).map(|x| x as u32).collect();
+    v.sort();
+    v.dedup();
+    v
+}
+
+fn directed_forms() -> Vec<FormCase> {
+    let mut one: Vec<(Vec<u8>, DOp)> = vec![];
+    for w in 1..=4u8 {
+        for x in signed_form_values(w) {
+            let tail = be_bytes(x as u32, w);
+            let mut mk = |base: u8, op: DOp| {
+                let mut b = vec![base + w - 1];
+                b.extend(&tail);
+                one.push((b, op));
+            };
+            mk(143, DOp::Right(x));
+            mk(148, DOp::SetVar(V::W, x));
+            mk(153, DOp::SetVar(V::X, x));
+            mk(157, DOp::Down(x));
+            mk(162, DOp::SetVar(V::Y, x));
+            mk(167, DOp::SetVar(V::Z, x));
+        }
+        for x in unsigned_form_values(w) {
+            let tail = be_bytes(x, w);
+            let mut mk = |base: u8, op: DOp, rest: &[u8]| {
+                let mut b = vec![base + w - 1];
+                b.extend(&tail);
+                b.extend(rest);
+                one.push((b, op));
+            };
+            mk(128, DOp::Char { c: x, set: true }, &[]);
+            mk(133, DOp::Char { c: x, set: false }, &[]);
+            mk(235, DOp::Fnt(x), &[]);
+            mk(243, DOp::FntDef { k: x, c: 0x01020304, s: 5, d: 0xfffffffe, area: "ar".into(), name: "név".into() }, &[1, 2, 3, 4, 0, 0, 0, 5, 255, 255, 255, 254, 2, 4, b'a', b'r', b'n', 0xc3, 0xa9, b'v']);
+            if x <= 300 {
+                let payload: Vec<u8> = (0..x).map(|i| (i * 7 + 250) as u8).collect();
+                mk(239, DOp::Xxx(Blob::Lit(payload.clone())), &payload);
+            }
+        }
+    }
+    let mut out = vec![];
+    for (b, op) in one {
+        out.push(FormCase { bytes: b.clone(), want: vec![op.clone()], truncated: None });
+        // between other commands: exactly the bytes of the command are consumed
+        let mut framed = vec![141u8];
+        framed.extend(&b);
+        framed.extend([65u8, 142]);
+        out.push(FormCase { bytes: framed, want: vec![DOp::Push, op, DOp::Char { c: 65, set: true }, DOp::Pop], truncated: None });
+    }
+    out
+}
+
+/// Ops whose every proper prefix is tried.
+fn prefix_ops(thorough: bool) -> Vec<DOp> {
+    sweep_cases(2, false)
+        .into_iter()
+        .filter(|op| match op {
+            DOp::Xxx(b) => b.len() <= 300 && (thorough || b.len() % 16 == 0 || b.len() <= 3 || (254..=258).contains(&b.len())),
+            DOp::FntDef { .. } | DOp::Pre { .. } => {
+                let n = max_str_len(op);
+                thorough || n <= 4 || n >= 252 || n % 32 == 0
+            }
+            _ => true,
+        })
+        .collect()
+}
+
+/// The number of leading bytes after which the command is complete (`post_post` is complete after 6
+/// bytes, every further 223 belongs to it but is not needed).
+fn complete_after(op: &DOp, enc: &[u8]) -> usize {
+    match op {
+        DOp::PostPost { .. } => 6,
+        _ => enc.len(),
+    }
+}
+
+fn prefix_case(op: &DOp, enc: &[u8], cut: usize, framed: bool) -> FormCase {
+    let mut bytes = if framed { vec![141u8] } else { vec![] };
+    bytes.extend(&enc[..cut]);
+    let mut want = if framed { vec![DOp::Push] } else { vec![] };
+    let mut truncated = None;
+    if cut < complete_after(op, enc) {
+        truncated = Some(enc[0]);
+    } else if let DOp::PostPost { q, i, .. } = op {
+        want.push(DOp::PostPost { q: *q, i: *i, n223: (cut - 6) as u32 });
+    } else {
+        want.push(op.canon());
+    }
+    FormCase { bytes, want, truncated }
+}
+
+fn form_oracle(ctx: &Ctx, c: &FormCase, case: &mut Case) -> Verdict {
+    if c.bytes.len() <= 40 {
+        case.note = Some(format!("{:?}", c.bytes));
+    }
+    // (1) the generic byte oracle (command table, writer, pipeline)
+    let nt = match bytes_check(ctx, &c.bytes, Some(case)) {
+        Ok((nt, _)) => nt,
+        Err(e) => return Verdict::Fail(e),
+    };
+    // (2) the reading spelled out by the generator
+    let (got, end) = match panics::catch(|| impl_decode(&c.bytes)) {
+        Ok(Ok(r)) => r,
+        Ok(Err(e)) => return Verdict::Fail(e),
+        Err(p) => return Verdict::Fail(format!("deserialize panicked at {}: {}", p.site(), p.message)),
+    };
+    let got_d: Vec<DOp> = got.iter().map(from_dvi).collect();
+    // the same ops with the five parameter bytes of post_post re-read in the standard order
+    // (accepted alternative, see ACCEPT_CRATE_POST_POST_LAYOUT)
+    let mut alt = got_d.clone();
+    for o in alt.iter_mut() {
+        if let DOp::PostPost { q, i, .. } = o {
+            let b = [*i, (*q >> 24) as u8, (*q >> 16) as u8, (*q >> 8) as u8, *q as u8];
+            *q = i32::from_be_bytes([b[0], b[1], b[2], b[3]]);
+            *i = b[4];
+        }
+    }
+    let want_end = match c.truncated {
+        None => End::Done,
+        Some(o) => End::Truncated(o),
+    };
+    let ops_ok = got_d == c.want || (ACCEPT_CRATE_POST_POST_LAYOUT && alt == c.want);
+    if !ops_ok || end_of(&end) != want_end {
+        return Verdict::Fail(format!("bytes {:?}: read {} ops ending {:?}, expected {} ops ending {:?}: {}", &c.bytes[..c.bytes.len().min(48)], got_d.len(), end_of(&end), c.want.len(), want_end, first_diff(&got_d, &c.want)));
+    }
+    case.class(if c.truncated.is_some() { "proper prefix of a command -> Truncated(opcode)" } else { "complete command(s)" });
+    Verdict::pass(nt || c.truncated.is_some())
 }
 
 // ---------------------------------------------------------------------------------
@@ -600,11 +855,14 @@ pub enum BCase {
     Raw(Vec<u8>),
     /// The DVI-standard encoding of `ops` with `muts` applied in order.
     Mutated { ops: Vec<DOp>, muts: Vec<Mutn> },
+    /// Commands spelled at chosen (also non-minimal) operand widths, raw strings (also non-UTF-8),
+    /// possibly cut short or ended by an undefined opcode.
+    Stream(Vec<u8>),
 }
 
 fn bcase_bytes(c: &BCase) -> Vec<u8> {
     match c {
-        BCase::Raw(b) => b.clone(),
+        BCase::Raw(b) | BCase::Stream(b) => b.clone(),
         BCase::Mutated { ops, muts } => {
             let mut b = m::encode(ops, Dev::default());
             for mu in muts {
@@ -659,6 +917,148 @@ fn interesting_bytes() -> Vec<u8> {
     v
 }
 
+/// Raw content of a string parameter: `n` bytes of one of several kinds (valid UTF-8 of each
+/// character width at every alignment, invalid bytes, cut multi-byte sequences, mixtures).
+fn raw_string() -> BoxedStrategy<Vec<u8>> {
+    let n = prop_oneof![4 => proptest::sample::select(vec![0usize, 1, 2, 84, 85, 86, 127, 128, 200, 252, 253, 254, 255]), 2 => 0usize..=255];
+    let unit = proptest::sample::select(vec![
+        vec![b'a'],
+        "é".as_bytes().to_vec(),
+        "€".as_bytes().to_vec(),
+        "𝄞".as_bytes().to_vec(),
+        "\u{fffd}".as_bytes().to_vec(),
+        vec![0xff],
+        vec![0x80],
+        vec![0xc3],             // lead byte without continuation
+        vec![0xe2, 0x82],       // 3-byte character cut after 2
+        vec![0xf0, 0x9d, 0x84], // 4-byte character cut after 3
+        vec![0xed, 0xa0, 0x80], // surrogate
+        vec![0xc0, 0xaf],       // overlong form
+        vec![0],
+    ]);
+    (n, 0usize..4, unit.clone(), unit, proptest::collection::vec(any::<u8>(), 0..6), 0usize..=255).prop_map(|(n, offset, u1, u2, noise, switch)| {
+        // `offset` ASCII bytes, then unit u1 up to byte `switch`, then unit u2, then noise; cut to n bytes
+        let mut v: Vec<u8> = vec![b'x'; offset.min(n)];
+        while v.len() < switch.min(n) {
+            v.extend_from_slice(&u1);
+        }
+        while v.len() + noise.len() < n {
+            v.extend_from_slice(&u2);
+        }
+        v.extend_from_slice(&noise);
+        v.truncate(n);
+        while v.len() < n {
+            v.push(b'y');
+        }
+        v
+    })
+    .boxed()
+}
+
+fn be_bytes(v: u32, w: u8) -> Vec<u8> {
+    v.to_be_bytes()[4 - w as usize..].to_vec()
+}
+
+/// One command spelled at a chosen operand width (non-minimal forms included), as bytes.
+fn raw_command() -> BoxedStrategy<Vec<u8>> {
+    // operand values that fit every width and keep positions small, plus the limits of the width
+    let sv = |w: u8| -> BoxedStrategy<i32> {
+        let bits = 8 * w as u32 - 1;
+        let (lo, hi) = if w == 4 { (i32::MIN, i32::MAX) } else { (-(1i32 << bits), (1i32 << bits) - 1) };
+        prop_oneof![6 => -100i32..=100, 2 => proptest::sample::select(vec![0, -1, 1, -128, 127, -129, 128]), 1 => proptest::sample::select(vec![lo, hi, lo + 1, hi - 1])].prop_map(move |x| x.clamp(lo, hi)).boxed()
+    };
+    let uv = |w: u8| -> BoxedStrategy<u32> {
+        let hi = if w == 4 { u32::MAX } else { (1u32 << (8 * w as u32)) - 1 };
+        prop_oneof![6 => 0u32..200, 2 => proptest::sample::select(vec![0u32, 1, 52, 63, 64, 127, 128, 255, 256]), 1 => Just(hi)].prop_map(move |x| x.min(hi)).boxed()
+    };
+    let width = 1u8..=4;
+    prop_oneof![
+        // movement at every width (right, w, x, down, y, z)
+        8 => (proptest::sample::select(vec![143u8, 148, 153, 157, 162, 167]), width.clone()).prop_flat_map(move |(base, w)| sv(w).prop_map(move |x| {
+            let mut b = vec![base + w - 1];
+            b.extend(be_bytes(x as u32, w));
+            b
+        })),
+        // w0 x0 y0 z0
+        5 => proptest::sample::select(vec![147u8, 152, 161, 166]).prop_map(|o| vec![o]),
+        // set1..4, put1..4, fnt1..4
+        4 => (proptest::sample::select(vec![128u8, 133, 235]), width.clone()).prop_flat_map(move |(base, w)| uv(w).prop_map(move |x| {
+            let mut b = vec![base + w - 1];
+            b.extend(be_bytes(x, w));
+            b
+        })),
+        // set_char_i, fnt_num_i, nop, push, pop, eop
+        8 => proptest::sample::select(vec![65u8, 66, 0, 127, 171, 172, 223, 234, 138, 141, 141, 142, 142, 140]).prop_map(|o| vec![o]),
+        // rules
+        2 => (proptest::sample::select(vec![132u8, 137]), -50i32..50, -50i32..50).prop_map(|(o, a, b)| {
+            let mut v = vec![o];
+            v.extend(a.to_be_bytes());
+            v.extend(b.to_be_bytes());
+            v
+        }),
+        // bop
+        2 => (-3i32..3).prop_map(|p| {
+            let mut v = vec![139u8];
+            v.extend([0u8; 40]);
+            v.extend(p.to_be_bytes());
+            v
+        }),
+        // xxx at every width
+        3 => (width.clone(), proptest::collection::vec(any::<u8>(), 0..20)).prop_map(|(w, payload)| {
+            let mut v = vec![239 + w - 1];
+            v.extend(be_bytes(payload.len() as u32, w));
+            v.extend(payload);
+            v
+        }),
+        // fnt_def at every width of k, raw strings
+        6 => (width.clone(), raw_string(), prop_oneof![3 => Just(vec![b'n']), 1 => raw_string()], any::<bool>()).prop_flat_map(move |(w, a, n, swap)| uv(w).prop_map(move |k| {
+            let (a, n) = if swap { (n.clone(), a.clone()) } else { (a.clone(), n.clone()) };
+            let mut v = vec![243 + w - 1];
+            v.extend(be_bytes(k, w));
+            v.extend([0, 0, 0, 1, 0, 10, 0, 0, 0, 10, 0, 0]);
+            v.push(a.len() as u8);
+            v.push(n.len() as u8);
+            v.extend(a);
+            v.extend(n);
+            v
+        })),
+        // pre, raw comment
+        5 => raw_string().prop_map(|c| {
+            let mut v = vec![247u8, 2, 1, 131, 146, 192, 28, 59, 0, 0, 0, 0, 3, 232];
+            v.push(c.len() as u8);
+            v.extend(c);
+            v
+        }),
+        // post, post_post
+        1 => Just(vec![248u8, 0, 0, 0, 0, 1, 131, 146, 192, 28, 59, 0, 0, 0, 0, 3, 232, 0, 0, 0, 1, 0, 0, 0, 1, 0, 1, 0, 1]),
+        1 => (0usize..8).prop_map(|n| {
+            let mut v = vec![249u8, 0, 0, 0, 0, 2];
+            v.extend(std::iter::repeat(223u8).take(n));
+            v
+        }),
+    ]
+    .boxed()
+}
+
+/// A stream of commands spelled at arbitrary operand widths with raw (possibly non-UTF-8) strings,
+/// optionally cut short or ended by an undefined opcode.
+fn raw_stream() -> BoxedStrategy<Vec<u8>> {
+    let tail = prop_oneof![6 => Just(None), 2 => any::<u16>().prop_map(|p| Some((p, None))), 1 => (any::<u16>(), 250u8..=255).prop_map(|(p, o)| Some((p, Some(o))))];
+    (proptest::collection::vec(raw_command(), 1..24), tail)
+        .prop_map(|(cmds, tail)| {
+            let mut b: Vec<u8> = cmds.into_iter().flatten().collect();
+            if let Some((p, o)) = tail {
+                let k = ((p as usize) * (b.len() + 1)) >> 16;
+                b.truncate(k);
+                if let Some(o) = o {
+                    b.push(o);
+                }
+            }
+            b
+        })
+        .boxed()
+}
+
 fn bcase_strategy() -> BoxedStrategy<BCase> {
     let byte = prop_oneof![3 => any::<u8>(), 3 => proptest::sample::select(interesting_bytes()), 2 => 0u8..6];
     let raw = prop_oneof![
@@ -674,8 +1074,9 @@ fn bcase_strategy() -> BoxedStrategy<BCase> {
         1 => (any::<u16>(), 1u8..12).prop_map(|(p, n)| Mutn::Dup(p, n)),
     ];
     prop_oneof![
-        1 => raw.prop_map(BCase::Raw),
-        1 => (proptest::collection::vec(any_op(), 1..14), 0u8..8, proptest::collection::vec(mu, 0..4)).prop_map(|(ops, k, muts)| BCase::Mutated { ops: thin_post_post(ops, k == 0), muts }),
+        3 => raw.prop_map(BCase::Raw),
+        3 => (proptest::collection::vec(any_op(), 1..14), 0u8..8, proptest::collection::vec(mu, 0..4)).prop_map(|(ops, k, muts)| BCase::Mutated { ops: thin_post_post(ops, k == 0), muts }),
+        2 => raw_stream().prop_map(BCase::Stream),
     ]
     .boxed()
 }
@@ -688,8 +1089,156 @@ fn end_of(r: &Result<(), dvi::InvalidDviData>) -> End {
     }
 }
 
+// ---- helpers shared by the byte-level and the op-level checks ----
+
+/// The op with the contents of its string parameters removed.
+fn blank_strings(op: &DOp) -> DOp {
+    match op {
+        DOp::FntDef { k, c, s, d, .. } => DOp::FntDef { k: *k, c: *c, s: *s, d: *d, area: String::new(), name: String::new() },
+        DOp::Pre { i, num, den, mag, .. } => DOp::Pre { i: *i, num: *num, den: *den, mag: *mag, comment: String::new() },
+        o => o.clone(),
+    }
+}
+
+/// Longest string parameter of the op, in UTF-8 bytes.
+fn max_str_len(op: &DOp) -> usize {
+    match op {
+        DOp::FntDef { area, name, .. } => area.len().max(name.len()),
+        DOp::Pre { comment, .. } => comment.len(),
+        _ => 0,
+    }
+}
+
+fn strings_of(op: &DOp) -> Vec<&str> {
+    match op {
+        DOp::FntDef { area, name, .. } => vec![area, name],
+        DOp::Pre { comment, .. } => vec![comment],
+        _ => vec![],
+    }
+}
+
+/// `a == b`, where ops marked `loose` are compared without the contents of their strings.
+fn same_ops(a: &[DOp], b: &[DOp], loose: &[bool]) -> bool {
+    a.len() == b.len() && a.iter().zip(b).enumerate().all(|(i, (x, y))| if loose.get(i).copied().unwrap_or(false) { blank_strings(x) == blank_strings(y) } else { x == y })
+}
+
+fn first_diff_loose(a: &[DOp], b: &[DOp], loose: &[bool]) -> String {
+    let f = |v: &[DOp]| -> Vec<DOp> { v.iter().enumerate().map(|(i, o)| if loose.get(i).copied().unwrap_or(false) { blank_strings(o) } else { o.clone() }).collect() };
+    first_diff(&f(a), &f(b))
+}
+
+/// Statistics of one run of the writer on reader-produced ops.
+#[derive(Default)]
+struct WriterStats {
+    overlong: bool,
+    overlong_cut_inside_char: bool,
+    overlong_reread_as_lossy_prefix: bool,
+    overlong_reread_otherwise: bool,
+}
+
+/// The writer applied to arbitrary `String`s (in particular those the crate's own reader produces from
+/// non-UTF-8 bytes, which can be up to 765 bytes long). Demanded: no panic; the written bytes decode
+/// to the end, without error, into the same number of ops; every op without an over-long string is
+/// returned exactly (that part is the round-trip clause of the property); an op with an over-long
+/// string is returned with all its other parameters intact. What becomes of the over-long string
+/// itself is not documented by the crate and therefore only counted.
+fn writer_check(ops_d: &[DOp], api: &[dvi::Op]) -> Result<WriterStats, String> {
+    let mut st = WriterStats::default();
+    let bytes = match panics::catch(|| dvi::serialize(api.to_vec())) {
+        Ok(b) => b,
+        Err(p) => return Err(format!("serialize panicked at {}: {} (strings of {:?} bytes)", p.site(), p.message, ops_d.iter().map(max_str_len).filter(|n| *n > 0).collect::<Vec<_>>())),
+    };
+    let (expected, _) = m::fold_223(ops_d);
+    let loose: Vec<bool> = expected.iter().map(|o| max_str_len(o) > 255).collect();
+    st.overlong = loose.iter().any(|b| *b);
+    let want: Vec<DOp> = expected.iter().map(|o| o.canon()).collect();
+    let (back, end) = match panics::catch(|| impl_decode(&bytes)) {
+        Ok(Ok(r)) => r,
+        Ok(Err(e)) => return Err(format!("reading back what serialize wrote: {e}")),
+        Err(p) => return Err(format!("deserialize panicked at {}: {} on bytes written by serialize", p.site(), p.message)),
+    };
+    if let Err(e) = &end {
+        return Err(format!("serialize wrote a stream that does not decode: {:?} after {} of {} ops", e, back.len(), want.len()));
+    }
+    let back_d: Vec<DOp> = back.iter().map(from_dvi).collect();
+    if !same_ops(&back_d, &want, &loose) {
+        return Err(format!("deserialize(serialize(ops)) != ops ({} vs {} ops; strings over 255 bytes not compared): {}", back_d.len(), want.len(), first_diff_loose(&back_d, &want, &loose)));
+    }
+    for (o, r) in want.iter().zip(&back_d) {
+        for (s, t) in strings_of(o).into_iter().zip(strings_of(r)) {
+            if s.len() > 255 {
+                st.overlong_cut_inside_char |= !s.is_char_boundary(255);
+                if *t == *String::from_utf8_lossy(&s.as_bytes()[..255]) {
+                    st.overlong_reread_as_lossy_prefix = true;
+                } else {
+                    st.overlong_reread_otherwise = true;
+                }
+            }
+        }
+    }
+    if CHECK_AGAINST_DVI_STANDARD {
+        // the command table reads the same (a string cut inside a character is no longer UTF-8: loose)
+        let ok = [Dev::default(), Dev { post_post_id_before_pointer: true }].iter().any(|dev| {
+            if dev.post_post_id_before_pointer && !ACCEPT_CRATE_POST_POST_LAYOUT {
+                return false;
+            }
+            let (r, _, e) = m::decode_ex(&bytes, *dev);
+            e == End::Done && same_ops(&r, &want, &loose)
+        });
+        if !ok {
+            let (r, _, e) = m::decode_ex(&bytes, Dev::default());
+            return Err(format!("bytes written by serialize for reader-produced ops, read by the DVI command table, are not those ops: end {:?}, {}", e, first_diff_loose(&r, &want, &loose)));
+        }
+    }
+    Ok(st)
+}
+
+fn record_writer_stats(st: &WriterStats, case: &mut Case) {
+    case.class_if(st.overlong, "writer: string > 255 bytes");
+    case.class_if(st.overlong_cut_inside_char, "writer: byte 255 of an over-long string is inside a character");
+    case.class_if(st.overlong_reread_as_lossy_prefix, "writer: over-long string comes back as its first 255 bytes (lossily decoded)");
+    case.class_if(st.overlong_reread_otherwise, "writer: over-long string comes back as something else (undocumented, not an error)");
+}
+
+/// What the rewriting must preserve, judged by the independent tracker: `input` is the stream before,
+/// `output` the stream after; ops marked `loose` have strings whose reading/truncation is not
+/// determined (non-UTF-8 in the file, or longer than 255 bytes) and are compared without them.
+/// `Ok(true)` when positions were compared, `Ok(false)` when the input leaves 32 bits (only the
+/// arithmetic-free demands are made then).
+fn transform_check(input: &[DOp], loose: &[bool], output: &[DOp], case: Option<&mut Case>) -> Result<bool, String> {
+    if let Some(i) = output.iter().position(|o| matches!(o, DOp::Move(_) | DOp::SetVar(..))) {
+        return Err(format!("output op {i} is {:?}: a w/x/y/z command survived", output[i]));
+    }
+    let t0 = m::track_aux(input);
+    let t1 = m::track_aux(output);
+    let in_range = t0.max_abs <= m::POS_LIMIT;
+    if in_range && t0.events != t1.events {
+        return Err(format!("typeset events (characters, rules, specials with page position and font) differ, original vs rewritten: {}\noutput: {}", first_diff(&t0.events, &t1.events), render(output)));
+    }
+    let mut keep_loose = vec![];
+    let mut a = vec![];
+    for (i, o) in input.iter().enumerate() {
+        if !o.is_movement() {
+            a.push(o.canon());
+            keep_loose.push(loose.get(i).copied().unwrap_or(false));
+        }
+    }
+    let b: Vec<DOp> = output.iter().filter(|o| !o.is_movement()).map(|o| o.canon()).collect();
+    if !same_ops(&a, &b, &keep_loose) {
+        return Err(format!("non-movement ops differ: {}", first_diff_loose(&a, &b, &keep_loose)));
+    }
+    if let Some(case) = case {
+        case.class_if(!in_range, "position leaves 32 bits: positions not compared");
+        if in_range {
+            case.class_if(t0.aux == t1.aux, "every other command also met at an unchanged position (not demanded)");
+            case.class_if(t0.aux != t1.aux, "some nop/fnt/push/… met at a changed position (not demanded)");
+        }
+    }
+    Ok(in_range)
+}
+
 /// Total on arbitrary bytes; returns (nontrivial, used_known_flag).
-fn bytes_check(ctx: &Ctx, bytes: &[u8], case: Option<&mut Case>) -> Result<(bool, bool), String> {
+fn bytes_check(ctx: &Ctx, bytes: &[u8], mut case: Option<&mut Case>) -> Result<(bool, bool), String> {
     let (got, end) = match panics::catch(|| impl_decode(bytes)) {
         Ok(Ok(r)) => r,
         Ok(Err(e)) => return Err(e),
@@ -715,7 +1264,7 @@ fn bytes_check(ctx: &Ctx, bytes: &[u8], case: Option<&mut Case>) -> Result<(bool
     let got_d: Vec<DOp> = got.iter().map(from_dvi).collect();
     let multi = got_d.iter().any(|o| !matches!(o, DOp::Char { c: 0..=127, set: true } | DOp::Nop | DOp::Eop | DOp::Push | DOp::Pop | DOp::Move(_) | DOp::Fnt(0..=63)));
     let nontrivial = multi || matches!(got_end, End::Truncated(_));
-    if let Some(case) = case {
+    if let Some(case) = case.as_deref_mut() {
         case.class(match got_end {
             End::Done => "all_bytes_decoded",
             End::BadOpcode(_) => "err_invalid_opcode",
@@ -731,34 +1280,93 @@ fn bytes_check(ctx: &Ctx, bytes: &[u8], case: Option<&mut Case>) -> Result<(bool
     if !CHECK_AGAINST_DVI_STANDARD {
         return Ok((nontrivial, false));
     }
-    let (ref_ops, ref_end) = m::decode(bytes, Dev::default());
-    if ref_ops == got_d && ref_end == got_end {
-        return Ok((nontrivial, false));
-    }
-    let (dev_ops, dev_end) = m::decode(bytes, Dev { post_post_id_before_pointer: true });
-    if dev_ops == got_d && dev_end == got_end {
-        if ACCEPT_CRATE_POST_POST_LAYOUT || ctx.known(FLAG_POST_POST) {
-            return Ok((nontrivial, false));
+    // The command table. A string parameter that is not UTF-8 in the file has no determined reading
+    // as a Rust `String` (the crate documents none): such ops are compared without their strings.
+    let (ref_ops, ref_loose, ref_end) = m::decode_ex(bytes, Dev::default());
+    let mut agrees = same_ops(&ref_ops, &got_d, &ref_loose) && ref_end == got_end;
+    if !agrees {
+        let (dev_ops, dev_loose, dev_end) = m::decode_ex(bytes, Dev { post_post_id_before_pointer: true });
+        if same_ops(&dev_ops, &got_d, &dev_loose) && dev_end == got_end {
+            if ACCEPT_CRATE_POST_POST_LAYOUT || ctx.known(FLAG_POST_POST) {
+                agrees = true;
+            } else {
+                return Err(format!(
+                    "post_post is read as `i[1] q[4]`; the DVI standard (TeX §590) says `q[4] i[1]`: bytes {:?}: {}",
+                    &bytes[..bytes.len().min(48)],
+                    first_diff(&got_d, &ref_ops)
+                ));
+            }
         }
+    }
+    if !agrees {
         return Err(format!(
-            "post_post is read as `i[1] q[4]`; the DVI standard (TeX §590) says `q[4] i[1]`: bytes {:?}: {}",
-            &bytes[..bytes.len().min(48)],
-            first_diff(&got_d, &ref_ops)
+            "deserialize disagrees with the DVI command table on bytes {:?}: end {:?} vs {:?}; {}",
+            &bytes[..bytes.len().min(64)],
+            got_end,
+            ref_end,
+            first_diff_loose(&got_d, &ref_ops, &ref_loose)
         ));
     }
-    Err(format!(
-        "deserialize disagrees with the DVI command table on bytes {:?}: end {:?} vs {:?}; {}",
-        &bytes[..bytes.len().min(64)],
-        got_end,
-        ref_end,
-        first_diff(&got_d, &ref_ops)
-    ))
+    if let Some(case) = case.as_deref_mut() {
+        let non_utf8 = ref_loose.iter().any(|b| *b);
+        case.class_if(non_utf8, "string not UTF-8 in the file (its reading is not compared)");
+        case.class_if(non_utf8 && ref_ops.iter().zip(&got_d).all(|(a, b)| strings_of(a) == strings_of(b)), "string not UTF-8 in the file, read as from_utf8_lossy");
+        case.class_if(!non_utf8 && got_end == End::Done && !ref_ops.is_empty() && m::encode(&ref_ops, Dev::default()) != bytes, "input has an operand in a non-minimal width");
+    }
+
+    // -- the writer on what the reader produced (ops before the error, if any)
+    let st = writer_check(&got_d, &got)?;
+    if let Some(case) = case.as_deref_mut() {
+        record_writer_stats(&st, case);
+    }
+
+    // -- the `dvitools normalize` pipeline on these very bytes: Deserializer -> VarRemover -> serialize.
+    // Both sides are read by the command table in the standard layout (the crate's read and write of
+    // post_post mirror each other, so the bytes of that command pass through unchanged).
+    let r = panics::catch(|| {
+        let mut result = Ok(());
+        let mut i1 = dvi::Deserializer::new(bytes, &mut result);
+        let i2 = dvi::transforms::VarRemover::new(&mut i1);
+        let b = dvi::serialize(i2);
+        (b, result)
+    });
+    let (out_bytes, result) = match r {
+        Ok(x) => x,
+        Err(p) => return Err(format!("normalize pipeline (bytes -> Deserializer -> VarRemover -> serialize) panicked at {}: {}; ops read: {}", p.site(), p.message, render(&got_d[..got_d.len().min(24)]))),
+    };
+    if result != end {
+        return Err(format!("normalize pipeline: the side-channel result is {:?}, plain deserialising ends with {:?}", result, end));
+    }
+    let (out_ops, _, out_end) = m::decode_ex(&out_bytes, Dev::default());
+    if out_end != End::Done {
+        return Err(format!("normalize pipeline wrote a stream that does not decode: {:?} after {} ops", out_end, out_ops.len()));
+    }
+    // input as the command table reads it; post_post + fnt_num_52 folds when re-serialised
+    let mut input: Vec<DOp> = vec![];
+    let mut loose: Vec<bool> = vec![];
+    for (op, l) in ref_ops.iter().zip(&ref_loose) {
+        if let (Some(DOp::PostPost { n223, .. }), DOp::Fnt(52)) = (input.last_mut(), op) {
+            *n223 += 1;
+            continue;
+        }
+        input.push(op.clone());
+        loose.push(*l || max_str_len(op) > 255);
+    }
+    let compared = transform_check(&input, &loose, &out_ops, case.as_deref_mut()).map_err(|e| format!("normalize pipeline on bytes {:?}: {e}", &bytes[..bytes.len().min(64)]))?;
+    if let Some(case) = case.as_deref_mut() {
+        let vars = input.iter().any(|o| matches!(o, DOp::Move(_) | DOp::SetVar(..)));
+        case.class_if(vars && compared, "pipeline: w/x/y/z commands rewritten, positions compared");
+        case.class_if(vars && got_end != End::Done, "pipeline: w/x/y/z commands before a decoding error");
+        case.class_if(out_bytes == bytes, "pipeline: output bytes identical to input");
+    }
+    Ok((nontrivial, false))
 }
 
 fn bytes_oracle(ctx: &Ctx, c: &BCase, case: &mut Case) -> Verdict {
     let bytes = bcase_bytes(c);
     case.class(match c {
         BCase::Raw(_) => "raw",
+        BCase::Stream(_) => "command_stream_any_width_raw_strings",
         BCase::Mutated { muts, .. } if muts.is_empty() => "valid_stream_unmutated",
         BCase::Mutated { .. } => "mutated_stream",
     });
@@ -870,7 +1478,7 @@ fn page_op(k: u8) -> BoxedStrategy<DOp> {
         }),
         2 => Just(DOp::Eop),
         1 => Just(DOp::Nop),
-        1 => blob().prop_map(DOp::Xxx),
+        3 => blob().prop_map(DOp::Xxx),
         1 => (0u32..4, ustr()).prop_map(|(k, name)| DOp::FntDef { k, c: 0, s: 655360, d: 655360, area: String::new(), name }),
         1 => prop_oneof![
             Just(DOp::Pre { i: 2, num: 25400000, den: 473628672, mag: 1000, comment: "c".into() }),
@@ -887,7 +1495,7 @@ fn fragment(k: u8) -> BoxedStrategy<Vec<DOp>> {
     let mid = proptest::collection::vec(page_op(k), 0..4);
     prop_oneof![
         // set, push, change, pop, reuse
-        (var(), dist(), dist(), mid.clone(), mid.clone(), page_char()).prop_map(|(v, a, b, m1, m2, c)| {
+        4 => (var(), dist(), dist(), mid.clone(), mid.clone(), page_char()).prop_map(|(v, a, b, m1, m2, c)| {
             let mut o = vec![DOp::SetVar(v, a), DOp::Push, DOp::SetVar(v, b)];
             o.extend(m1);
             o.push(DOp::Pop);
@@ -897,7 +1505,7 @@ fn fragment(k: u8) -> BoxedStrategy<Vec<DOp>> {
             o
         }),
         // set, page boundary, use
-        (var(), dist(), any::<bool>(), mid.clone(), page_char()).prop_map(|(v, a, eop, m1, c)| {
+        4 => (var(), dist(), any::<bool>(), mid.clone(), page_char()).prop_map(|(v, a, eop, m1, c)| {
             let mut o = vec![DOp::SetVar(v, a)];
             if eop {
                 o.push(DOp::Eop);
@@ -909,9 +1517,34 @@ fn fragment(k: u8) -> BoxedStrategy<Vec<DOp>> {
             o
         }),
         // push left open over a page boundary, then pop and use
-        (var(), dist(), dist(), page_char()).prop_map(|(v, a, b, c)| vec![DOp::SetVar(v, a), DOp::Push, DOp::SetVar(v, b), bop(), DOp::Pop, DOp::Move(v), DOp::Char { c, set: true }]),
+        4 => (var(), dist(), dist(), page_char()).prop_map(|(v, a, b, c)| vec![DOp::SetVar(v, a), DOp::Push, DOp::SetVar(v, b), bop(), DOp::Pop, DOp::Move(v), DOp::Char { c, set: true }]),
         // font selected inside push, character after pop
-        (0u32..4, 0u32..4, page_char()).prop_map(|(f, g, c)| vec![DOp::Fnt(f), DOp::Push, DOp::Fnt(g), DOp::Char { c, set: true }, DOp::Pop, DOp::Char { c, set: true }]),
+        4 => (0u32..4, 0u32..4, page_char()).prop_map(|(f, g, c)| vec![DOp::Fnt(f), DOp::Push, DOp::Fnt(g), DOp::Char { c, set: true }, DOp::Pop, DOp::Char { c, set: true }]),
+        // specials whose position is given by variable motions only: x(a) xxx x0 xxx [char]
+        3 => (var(), dist(), blob(), blob(), proptest::option::of(page_char())).prop_map(|(v, a, b1, b2, c)| {
+            let mut o = vec![DOp::SetVar(v, a), DOp::Xxx(b1), DOp::Move(v), DOp::Xxx(b2)];
+            if let Some(c) = c {
+                o.push(DOp::Char { c, set: true });
+            }
+            o
+        }),
+        // deep nesting: every level sets a variable to its own value, typesets at the bottom, and
+        // on the way out each level reuses the value it had saved
+        1 => (proptest::sample::select(vec![3usize, 15, 16, 17, 33, 64, 100]), var(), -12i32..=12, page_char(), any::<bool>()).prop_map(|(depth, v, a, c, unbalanced)| {
+            let mut o = vec![];
+            for k in 0..depth {
+                o.push(DOp::SetVar(v, a.wrapping_add(k as i32)));
+                o.push(DOp::Push);
+            }
+            o.push(DOp::Char { c, set: true });
+            let pops = if unbalanced { depth / 2 } else { depth };
+            for _ in 0..pops {
+                o.push(DOp::Pop);
+                o.push(DOp::Move(v));
+                o.push(DOp::Char { c, set: false });
+            }
+            o
+        }),
     ]
     .boxed()
 }
@@ -924,21 +1557,49 @@ fn page_ops() -> BoxedStrategy<Vec<DOp>> {
         })
         .prop_map(|ps| {
             let mut v: Vec<DOp> = ps.into_iter().flatten().collect();
-            v.truncate(200);
+            v.truncate(400);
             repair(v)
         })
         .boxed()
+}
+
+/// Page content whose positions may leave 32 bits: no repair, large displacements frequent, and
+/// directed pairs (a movement to within a few units of +-2^31, then one more step the same way).
+fn overflow_ops() -> BoxedStrategy<Vec<DOp>> {
+    let big = || prop_oneof![3 => proptest::sample::select(vec![i32::MAX, i32::MAX - 1, i32::MIN, i32::MIN + 1, 1 << 30, -(1 << 30), (1 << 30) + 1]), 1 => any::<i32>(), 1 => (-3i32..=3).prop_map(|d| if d >= 0 { i32::MAX - d } else { i32::MIN - d })];
+    let mover = move |first: bool| {
+        let d = if first { big().boxed() } else { prop_oneof![2 => big(), 3 => -3i32..=3].boxed() };
+        prop_oneof![
+            2 => d.clone().prop_map(DOp::Right),
+            2 => d.clone().prop_map(DOp::Down),
+            4 => (var(), d.clone()).prop_map(|(v, d)| DOp::SetVar(v, d)),
+            1 => d.prop_map(|width| DOp::Rule { height: 1, width, set: true }),
+        ]
+    };
+    let pair = (mover(true), proptest::collection::vec(page_op(0), 0..3), prop_oneof![3 => mover(false).boxed(), 2 => var().prop_map(DOp::Move).boxed()], page_char()).prop_map(|(a, mid, b, c)| {
+        let mut o = vec![a];
+        o.extend(mid);
+        o.push(b);
+        o.push(DOp::Char { c, set: true });
+        o
+    });
+    let piece = prop_oneof![6 => page_op(3).prop_map(|o| vec![o]), 1 => fragment(3), 3 => pair];
+    proptest::collection::vec(piece, 1..16).prop_map(|ps| ps.into_iter().flatten().collect()).boxed()
 }
 
 fn fonts_agree(api: &[(u32, u32)], model: &[m::Adv]) -> bool {
     api.len() == model.len() && api.iter().zip(model).all(|(a, b)| a.0 == b.0 && b.1.map_or(true, |f| f == a.1))
 }
 
-fn remover_oracle(ops: &Vec<DOp>, case: &mut Case) -> Verdict {
+/// `overflow_zone`: the sub-check whose generator lets positions leave 32 bits. There the positions are
+/// not compared (DVItype §91–92 reports "arithmetic overflow" and changes the parameter: such a stream
+/// is not a DVI and its positions are not determined), everything that involves no position arithmetic is.
+fn remover_oracle(ops: &Vec<DOp>, overflow_zone: bool, case: &mut Case) -> Verdict {
     case.note = Some(render(ops));
     // -- the tracker on the original
     let t0 = m::track(ops);
-    if t0.max_abs > m::POS_LIMIT {
+    let overflows = t0.max_abs > m::POS_LIMIT;
+    if overflows && !overflow_zone {
         return Verdict::Skip("position leaves 32 bits");
     }
     let sh = &t0.shapes;
@@ -950,11 +1611,19 @@ fn remover_oracle(ops: &Vec<DOp>, case: &mut Case) -> Verdict {
     case.class_if(sh.pop_after_bop_emptied_stack, "bop with open push, then pop");
     case.class_if(sh.font_change_inside_push_seen_after_pop, "font changed inside push, pop");
     case.class_if(sh.max_depth >= 3, "depth>=3");
+    case.class_if(sh.max_depth >= 16, "depth>=16");
+    case.class_if(sh.max_depth >= 64, "depth>=64");
     case.class_if(sh.pages >= 2, "pages>=2");
+    case.class_if(sh.specials > 0, "has xxx");
+    case.class_if(sh.special_away_from_origin, "xxx away from the page origin");
+    case.class_if(sh.special_after_var_motion, "xxx directly after a w/x/y/z motion");
     case.class_if(t0.max_abs > 1 << 24, "|pos|>2^24");
     case.class_if(t0.max_abs > 1 << 30, "|pos|>2^30");
     case.class_if(ops.len() >= 100, "len>=100");
-    let nontrivial = sh.push_change_pop_reuse || sh.use_across_bop;
+    let has_var = sh.var_sets + sh.var_moves > 0;
+    case.class_if(overflows && has_var, "position overflows 32 bits, w/x/y/z commands present");
+    case.class_if(overflows && !has_var, "position overflows 32 bits, no w/x/y/z command");
+    let nontrivial = if overflow_zone { overflows && has_var } else { sh.push_change_pop_reuse || sh.use_across_bop };
 
     let api: Vec<dvi::Op> = ops.iter().map(to_dvi).collect();
 
@@ -964,17 +1633,8 @@ fn remover_oracle(ops: &Vec<DOp>, case: &mut Case) -> Verdict {
         Err(p) => return Verdict::Fail(format!("VarRemover panicked at {}: {}", p.site(), p.message)),
     };
     let out_d: Vec<DOp> = out.iter().map(from_dvi).collect();
-    if let Some(i) = out_d.iter().position(|o| matches!(o, DOp::Move(_) | DOp::SetVar(..))) {
-        return Verdict::Fail(format!("output op {i} is {:?}: a w/x/y/z command survived", out_d[i]));
-    }
-    let t1 = m::track(&out_d);
-    if t0.events != t1.events {
-        return Verdict::Fail(format!("typeset events differ (original vs VarRemover output): {}\noutput: {}", first_diff(&t0.events, &t1.events), render(&out_d)));
-    }
-    let keep = |v: &[DOp]| -> Vec<DOp> { v.iter().filter(|o| !o.is_movement()).map(|o| o.canon()).collect() };
-    let (a, b) = (keep(ops), keep(&out_d));
-    if a != b {
-        return Verdict::Fail(format!("non-movement ops differ: {}", first_diff(&a, &b)));
+    if let Err(e) = transform_check(ops, &[], &out_d, Some(case)) {
+        return Verdict::Fail(e);
     }
 
     // -- the same through the byte pipeline used by `dvitools normalize`
@@ -1013,8 +1673,14 @@ fn remover_oracle(ops: &Vec<DOp>, case: &mut Case) -> Verdict {
             t.step(op);
             t.events.clear();
             let (h, hc) = values.h();
-            let got = [h as i64, values.v() as i64, values.w() as i64, values.x() as i64, values.y() as i64, values.z() as i64];
+            let mut got = [h as i64, values.v() as i64, values.w() as i64, values.x() as i64, values.y() as i64, values.z() as i64];
             let want = [t.cur.h, t.cur.v, t.cur.vars[0], t.cur.vars[1], t.cur.vars[2], t.cur.vars[3]];
+            if t.max_abs > m::POS_LIMIT {
+                // (overflow zone only) once a position has left 32 bits, h and v are no longer determined;
+                // w, x, y, z, the advances and the font still are
+                got[0] = want[0];
+                got[1] = want[1];
+            }
             if got != want {
                 return Err(format!("after op {i} ({:?}): dvi::Values (h,v,w,x,y,z) = {:?}, DVItype model {:?}", op, got, want));
             }
@@ -1046,6 +1712,9 @@ pub enum Golden {
     Codec { bytes: Vec<u8>, op: DOp },
     Values { ops: Vec<DOp>, f: u32, h: i64, chars: Vec<(u32, u32)>, v: i64, vars: [i64; 4] },
     Remover { ops: Vec<DOp>, want: Vec<DOp> },
+    /// An encoding the crate's documentation spells out (doc examples of `Op::serialize`, `dvi::serialize`,
+    /// `Deserializer`, and the byte counts in the documentation of `Var`): asserted of the crate's writer.
+    Documented { ops: Vec<DOp>, bytes: Option<Vec<u8>>, len: usize },
 }
 
 fn goldens() -> Vec<Golden> {
@@ -1153,6 +1822,13 @@ fn goldens() -> Vec<Golden> {
         want: vec![Right(3), Push, Right(5), Right(5), Pop, Right(3)],
     });
     g.push(Golden::Remover { ops: vec![SetVar(V::X, 3), Move(V::X), Char { c: 68, set: false }], want: vec![Right(3), Right(3), Char { c: 68, set: false }] });
+    // lib.rs, `Op::serialize`: Right(256) -> [144, 1, 0]
+    g.push(Golden::Documented { ops: vec![Right(256)], bytes: Some(vec![144, 1, 0]), len: 3 });
+    // lib.rs, `dvi::serialize` / `Deserializer`
+    g.push(Golden::Documented { ops: vec![Down(256), Char { c: 68, set: true }, Char { c: 86, set: true }, Char { c: 73, set: true }], bytes: Some(vec![158, 1, 0, 68, 86, 73]), len: 6 });
+    // lib.rs, `Var`: "The first sequence serializes to 9 bytes, while the second serializes to 5 bytes."
+    g.push(Golden::Documented { ops: vec![Down(300), Down(300), Down(300)], bytes: None, len: 9 });
+    g.push(Golden::Documented { ops: vec![SetVar(V::Y, 300), Move(V::Y), Move(V::Y)], bytes: None, len: 5 });
     g
 }
 
@@ -1177,6 +1853,17 @@ fn golden_oracle(g: &Golden, _case: &mut Case) -> Verdict {
             }
             Verdict::pass(true)
         }
+        Golden::Documented { ops, bytes, len } => {
+            let enc = m::encode(ops, Dev::default());
+            if enc.len() != *len || bytes.as_ref().map_or(false, |b| *b != enc) {
+                return Verdict::Fail(format!("model encoder: {} -> {:?}, documented {:?} ({} bytes)", render(ops), enc, bytes, len));
+            }
+            let got = dvi::serialize(ops.iter().map(to_dvi).collect::<Vec<_>>());
+            if got.len() != *len || bytes.as_ref().map_or(false, |b| *b != got) {
+                return Verdict::Fail(format!("dvi::serialize: {} -> {:?}; the crate's documentation says {:?} ({} bytes)", render(ops), got, bytes, len));
+            }
+            Verdict::pass(true)
+        }
         Golden::Remover { ops, want } => {
             // the documented output must satisfy the model's notion of equivalence
             let (a, b) = (m::track(ops), m::track(want));
@@ -1192,14 +1879,17 @@ fn golden_oracle(g: &Golden, _case: &mut Case) -> Verdict {
 
 pub fn run(ctx: &Ctx) {
     run_fuzz_raw(ctx, fuzz_entry);
-    ctx.rule("roundtrip: proptest sequences of 0..200 ops over every Op variant with operands on and around every encoding boundary (0, +-2^7, +-2^15, +-2^23 each +-1, i32/u32 limits, fnt_num/set_char fast-path limits), strings = arbitrary Unicode of exactly 0..255 UTF-8 bytes, xxx payloads up to 2^24+1 bytes; non-trivial = some operand needs >= 2 bytes or a string/payload is present; plus a deterministic per-op sweep of +-W around every boundary. bytes_total: random bytes, opcode-biased bytes and truncations/byte edits of valid streams, plus every byte string of length <= 2 (3 in thorough); non-trivial = a multi-byte command was decoded or the data ended inside a command. var_remover: page-content sequences (<= 200 ops; push/pop balanced or not, several pages) compared through an independent DVItype-style tracker; non-trivial = a variable is set, pushed over, changed, popped and reused by w0/x0/y0/z0, or is non-zero at a bop and reused on the new page, and a character or rule is typeset while that motion is in effect; distinct = by op sequence");
-    ctx.assume("strings (font area/name, preamble comment) are valid Unicode of at most 255 UTF-8 bytes: the writer truncates at 255 bytes and the reader decodes lossily, longer or non-UTF-8 strings are not expressible values");
+    ctx.rule("roundtrip: proptest sequences of 0..200 ops over every Op variant with operands on and around every encoding boundary (0, +-2^7, +-2^15, +-2^23 each +-1, i32/u32 limits, fnt_num/set_char fast-path limits), strings = arbitrary Unicode of exactly 0..255 UTF-8 bytes, xxx payloads up to 2^24+1 bytes; non-trivial = some operand needs >= 2 bytes or a string/payload is present; plus a deterministic per-op sweep of +-W around every boundary. writer_overlong_strings: strings of 256..65537 bytes with 1-4 byte characters at every alignment to byte 255; non-trivial = always. bytes_total: random bytes, opcode-biased bytes, truncations/byte edits of valid streams and command streams spelled at every (also non-minimal) operand width with raw non-UTF-8 strings, plus every byte string of length <= 2 (3 in thorough); every decoded prefix is also re-serialised and sent through the normalize pipeline; non-trivial = a multi-byte command was decoded or the data ended inside a command. reader_forms: every command with an operand at every width 1..4 with the limits of that and every smaller width; reader_prefixes: every proper prefix of every command of the boundary sweep. var_remover: page-content sequences (<= 400 ops; push/pop balanced or not, nesting to depth 100, several pages) compared through an independent DVItype-style tracker; non-trivial = a variable is set, pushed over, changed, popped and reused by w0/x0/y0/z0, or is non-zero at a bop and reused on the new page, and a character or rule is typeset while that motion is in effect; var_remover_overflow: the same without keeping positions inside 32 bits, non-trivial = a position leaves 32 bits in a stream that uses w/x/y/z; distinct = by op sequence / byte string");
+    ctx.assume("round trip: strings (font area/name, preamble comment) are valid Unicode of at most 255 UTF-8 bytes (the quantifier's domain). Longer strings, which the crate's own reader produces from non-UTF-8 bytes, are not expressible in DVI and the crate documents nothing about them: for those only robustness is demanded (no panic, the written stream decodes to the end into the same number of ops, every other op and every other parameter intact); what the string becomes is counted, not judged");
+    ctx.assume("a string parameter that is not valid UTF-8 in the file has no determined reading as a Rust String (the crate documents none): such an op is compared with the command table without the contents of its strings (counted; the crate's from_utf8_lossy reading is counted separately)");
     ctx.assume("post_post directly followed by fnt_num_52 (byte 223) cannot be expressed in the DVI format itself (the trailing 223 bytes of post_post absorb it); for such sequences the expected reading is the folded one (count of 223s increased), counted in class post_post_then_fnt_num_52");
     ctx.assume("num_223_bytes <= 400 and xxx payloads <= 2^24+1 bytes (memory), EndPostamble.num_223_bytes fits u32");
-    ctx.assume("var_remover: |h|,|v| (integer parts) stay within 32 bits, by construction of the generator (a stream whose positions overflow is not a DVI); character advance widths are symbolic (char, font) as in dvi::Values::h");
+    ctx.assume("var_remover: page positions are compared only for streams whose |h|,|v| (integer parts) stay within 32 bits (DVItype 91-92 reports arithmetic overflow and alters the parameter: a stream whose positions overflow is not a DVI and its positions are not determined). In var_remover this holds by construction; var_remover_overflow and the byte pipeline also run streams that leave 32 bits and demand there what needs no position arithmetic: no panic, no w/x/y/z command in the output, every other operation unchanged, w/x/y/z/f of dvi::Values equal to the model. Character advance widths are symbolic (char, font) as in dvi::Values::h");
     ctx.assume("the current font is undefined after bop (TeX §585); an undefined font in the model matches any font value reported by dvi::Values");
-    ctx.assume("xxx commands are no-ops for positioning (DVItype): their page position is not compared");
+    ctx.assume("xxx commands do not move the position; their own page position (where DVI drivers act on a special) is compared like that of characters and rules. The position at which any other non-movement command (nop, fnt, fnt_def, push, pop, bop, eop, pre, post, post_post) is met has no meaning in DVI: it is counted, not judged; those commands must be unchanged in content and order");
+    ctx.assume("minimal-width encodings are not demanded (the statement does not, the crate documents them only through examples, which model_goldens asserts); deviations are counted in roundtrip.non_minimal_width_encodings");
     let tier = ctx.tier;
+    NON_MINIMAL.store(0, std::sync::atomic::Ordering::Relaxed);
 
     run_list(ctx, "model_goldens", goldens(), golden_oracle);
 
@@ -1225,6 +1915,10 @@ pub fn run(ctx: &Ctx) {
         |ops: &Vec<DOp>, case| roundtrip_oracle(ctx, ops, case),
     );
     ctx.extra("roundtrip_sweep", "window_around_each_boundary", serde_json::json!(tier.pick(130, 5000)));
+    if ctx.is_generate() {
+        ctx.extra("roundtrip", "non_minimal_width_encodings", serde_json::json!(NON_MINIMAL.load(std::sync::atomic::Ordering::Relaxed)));
+    }
+    run_list(ctx, "writer_overlong_strings", overlong_cases(), overlong_oracle);
 
     // (ii)
     let n = tier.pick(300_000u64, 8_000_000u64);
@@ -1234,10 +1928,39 @@ pub fn run(ctx: &Ctx) {
         let b = short_bytes(i);
         bytes_check(ctx, &b, None).map(|(nt, _)| nt)
     });
+    run_list(ctx, "reader_forms", directed_forms(), |c: &FormCase, case| form_oracle(ctx, c, case));
+    {
+        // every proper prefix (and, for post_post, every prefix) of every command of the sweep,
+        // alone and after another command
+        let ops = prefix_ops(tier == Tier::Thorough);
+        let encs: Vec<Vec<u8>> = ops.iter().map(|o| m::encode(std::slice::from_ref(o), Dev::default())).collect();
+        let mut starts: Vec<u64> = Vec::with_capacity(encs.len() + 1);
+        let mut total = 0u64;
+        for e in &encs {
+            starts.push(total);
+            total += e.len() as u64; // cuts 1..=len-1 and, as a control, the whole command
+        }
+        starts.push(total);
+        run_indexed(
+            ctx,
+            "reader_prefixes",
+            2 * total,
+            false,
+            |i| {
+                let (framed, j) = (i >= total, i % total);
+                let k = starts.partition_point(|s| *s <= j) - 1;
+                let cut = (j - starts[k]) as usize + 1;
+                prefix_case(&ops[k], &encs[k], cut, framed)
+            },
+            |c: &FormCase, case| form_oracle(ctx, c, case),
+        );
+    }
 
     // (iii)
     let n = tier.pick(100_000u64, 2_500_000u64);
-    run_generated(ctx, "var_remover", n, page_ops, |ops: &Vec<DOp>, case| remover_oracle(ops, case));
+    run_generated(ctx, "var_remover", n, page_ops, |ops: &Vec<DOp>, case| remover_oracle(ops, false, case));
+    let n = tier.pick(30_000u64, 800_000u64);
+    run_generated(ctx, "var_remover_overflow", n, overflow_ops, |ops: &Vec<DOp>, case| remover_oracle(ops, true, case));
 }
 
 
